@@ -260,6 +260,31 @@ def always_walked(R, ctx):
     R.require(rid, "floor:sites", n >= 1, "", "%d constructions of the Block resource" % n)
 
 
+def no_explicit_panics(R, ctx):
+    """What the file system holds decides which arm of the bundler's matches runs: none of them may be a panic."""
+    rid = "C05.total"
+    lib = ctx.lib
+    R.rule(rid, "zero-count rule with a positive control: the functions of the bundler's require path (rules::bundle::path_require_mode) contain "
+                "no explicit panic macro (`unreachable!`, `panic!`, `todo!`, `unimplemented!`): every arm that a file-system state can select "
+                "-- a required file without an extension, an unknown extension, a missing file -- answers with an error value naming the "
+                "file; the positive control counts the error values these functions build")
+    explicit = {"panic", "panic_fmt", "unreachable_display", "panic_explicit", "panic_display", "begin_panic", "unreachable"}
+    bad, errs, nfn = [], 0, 0
+    for f in lib.fn_list:
+        if not thir.body_of(f) or "::test" in f["path"] or not (f["path"].startswith("rules::bundle::path_require_mode") or f["path"].startswith("<rules::bundle::path_require_mode")):
+            continue
+        nfn += 1
+        for c in thir.fn_refs(f):
+            cal = (callee_of(c) or c.get("fn") or "")
+            if c.get("fname") in explicit and ("panicking" in cal or "begin_panic" in cal):
+                bad.append((f, c))
+            if "DarkluaError::" in cal:
+                errs += 1
+    R.require(rid, "floor:error-values", nfn >= 5 and errs >= 3, "", "%d functions, %d DarkluaError constructions (positive control)" % (nfn, errs))
+    R.ob(rid, "no-explicit-panic-in-require-path", not bad, ctx.where(bad[0][0], bad[0][1].get("ln")) if bad else "",
+         "no explicit panic macro" if not bad else "%s contains an explicit panic (`%s`): a file-system state that selects this arm aborts the whole run" % (bad[0][0]["path"].split("::")[-1], bad[0][1].get("fname")))
+
+
 def run(R, ctx):
     R.explanation = (
         "Structural conditions of the bundler: scope tracking on every inlining traversal (resolved generic arguments of the visit_block "
@@ -278,6 +303,7 @@ def run(R, ctx):
     errors(R, ctx)
     order(R, ctx)
     always_walked(R, ctx)
+    no_explicit_panics(R, ctx)
     from .. import loops
     loops.index_removal_rule(R, ctx, "C05.index")
     # data files required by a bundle go through the same serde -> Lua expression serializer (transcode): its value preservation
